@@ -69,8 +69,8 @@ def run(n, seed):
             if outcome(ri) != "ok":
                 raise RuntimeError("instantiate failed in migration set-up: %r" % ri)
             path = r.choice(["v100", "v100", "v100", "v0420", "v0418"])
-            name = r.choice(["staking"] * 8 + ["treasury", "other", "crates.io:staking", "acme:staking", ":staking", "staking:", "liquid-staking",
-                             "Staking", "staking "])
+            name = "staking" if r.random() < 0.8 else r.choice(["treasury", "other", "crates.io:staking", "acme:staking", ":staking", "staking:",
+                                                                "liquid-staking", "Staking", "staking "])
             exact = {"v100": "1.0.0", "v0420": "0.4.20", "v0418": "0.4.18"}[path]
             ver = exact if r.random() < 0.6 else r.choice(VERSIONS)
             stored = {"contract": name, "version": ver}
@@ -80,6 +80,15 @@ def run(n, seed):
             else:
                 h.call({"op": "rawset", "key": item_key("contract_info"), "value": jhex(stored)})
             cfg_now = json.loads(bytes.fromhex(h.call({"op": "rawget", "key": item_key("config")})["ok"]))
+            if r.random() < 0.5:
+                # a deployment that has been running: totals, retained fees and rewards in the stored state (no migration
+                # path reads or writes them)
+                st_raw = h.call({"op": "rawget", "key": item_key("state")})["ok"]
+                if st_raw:
+                    st_ = json.loads(bytes.fromhex(st_raw))
+                    st_.update(total_native_token=str(r.choice([0, 10 ** 9])), total_liquid_stake_token=str(r.choice([0, 10 ** 9])),
+                               total_fees=str(r.choice([1, 500, 10 ** 6])), total_reward_amount=str(r.choice([0, 7000])))
+                    h.call({"op": "rawset", "key": item_key("state"), "value": jhex(st_)})
             li, lw = [], []
             if path == "v100" or r.random() < 0.2:
                 # sizes on both sides of the page sizes the contract uses elsewhere (10) and of a large backlog
@@ -108,6 +117,9 @@ def run(n, seed):
                                              "native_validator_address_prefix": r.choice(["celestiavaloper", "celestiavaloper", "x y"]),
                                              "native_token_denom": r.choice(["utia", "utia", "ab", "u1ia"]),
                                              "protocol_account_address_prefix": r.choice(["osmo", "osmo", "celestia"])}}
+                if r.random() < 0.6:
+                    msg = {"v0_4_20_to_v1_0_0": {"native_account_address_prefix": "celestia", "native_validator_address_prefix": "celestiavaloper",
+                                                 "native_token_denom": "utia", "protocol_account_address_prefix": "osmo"}}
             if r.random() < 0.08:      # message of another path than the store is prepared for
                 msg = r.choice([{"v1_0_0_to_v1_1_0": {}}, {"v0_4_18_to_v0_4_20": {"send_fees_to_treasury": True}}])
             before = {k: v for k, v in h.call({"op": "rawdump"})["ok"]}
@@ -145,6 +157,16 @@ def run(n, seed):
             if ms["version"] != ver_after:
                 divs.append({"seed": sd, "channel": "migrate.version", "detail": {"model": ms["version"], "impl": ver_after}, "events": []})
             cfg_after = json.loads(bytes.fromhex(after[item_key("config")]))
+            if next(iter(msg)) == "v0_4_20_to_v1_0_0" and layout == "0420":
+                # the translation of the fee destination, judged on the implementation alone: the legacy treasury is kept
+                # exactly when the legacy flag says fees go to it
+                want_t = cfg["treasury_address"] if cfg.get("send_fees_to_treasury") else None
+                got_t = cfg_after.get("protocol_fee_config", {}).get("treasury_address")
+                if got_t != want_t:
+                    findings.append({"property": "C18", "monitor": "v0420_fields", "signature": {"field": "treasury_address"}, "seed": sd,
+                                     "events": [case], "event": case,
+                                     "what": "0.4.20->1.0.0 with send_fees_to_treasury=%s and treasury %s stores treasury_address %s" % (
+                                         cfg.get("send_fees_to_treasury"), cfg.get("treasury_address"), got_t)})
             if path != "v100" and ms["config"] != cfg_after:
                 divs.append({"seed": sd, "channel": "migrate.config", "detail": {"model": ms["config"], "impl": cfg_after, "case": case}, "events": []})
             infl_after = sorted((int(k[-16:], 16), json.loads(bytes.fromhex(v))) for k, v in after.items()
